@@ -1,0 +1,101 @@
+//go:build verif
+
+package cmpb
+
+import (
+	"fmt"
+
+	"github.com/pentops/j5/gen/j5/sourcedef/v1/sourcedef_j5pb"
+	"github.com/pentops/j5/internal/j5s/j5parse"
+)
+
+// Verification-only (build tag "verif"); adds no behaviour. WalkerSpec dumps
+// j5parse.J5SchemaSpec (the BCL block specs that drive the schema-directed walker
+// for .j5s files) as plain data, in declaration order; ParseFull is Parse that also
+// hands back the j5.sourcedef.v1.SourceFile message the walker filled.
+
+type SpecTag struct {
+	FieldName string
+	Bang      *string
+	Question  *string
+	IsBlock   bool
+	Optional  bool
+}
+
+type SpecAlias struct {
+	Name string
+	Path []string
+}
+
+type SpecSplit struct {
+	Delimiter   *string
+	RightToLeft bool
+	Required    [][]string
+	Optional    [][]string
+	Remainder   []string
+	HasRemainer bool
+}
+
+type SpecBlock struct {
+	SchemaName   string
+	Name         *SpecTag
+	TypeSelect   *SpecTag
+	Qualifier    *SpecTag
+	Description  *string
+	OnlyExplicit bool
+	Aliases      []SpecAlias
+	Split        *SpecSplit
+}
+
+func WalkerSpec() []SpecBlock {
+	var out []SpecBlock
+	for _, b := range j5parse.J5SchemaSpec.Blocks {
+		sb := SpecBlock{SchemaName: b.SchemaName, Description: b.DescriptionField, OnlyExplicit: b.OnlyExplicit}
+		if t := b.Name; t != nil {
+			sb.Name = &SpecTag{FieldName: t.FieldName, Bang: t.BangBool, Question: t.QuestionBool, IsBlock: t.IsBlock, Optional: t.Optional}
+		}
+		if t := b.TypeSelect; t != nil {
+			sb.TypeSelect = &SpecTag{FieldName: t.FieldName, Bang: t.BangBool, Question: t.QuestionBool, IsBlock: t.IsBlock, Optional: t.Optional}
+		}
+		if t := b.Qualifier; t != nil {
+			sb.Qualifier = &SpecTag{FieldName: t.FieldName, Bang: t.BangBool, Question: t.QuestionBool, IsBlock: t.IsBlock, Optional: t.Optional}
+		}
+		for _, a := range b.Alias {
+			sb.Aliases = append(sb.Aliases, SpecAlias{Name: a.Name, Path: append([]string(nil), a.Path.GetPath()...)})
+		}
+		if ss := b.ScalarSplit; ss != nil {
+			sp := &SpecSplit{Delimiter: ss.Delimiter, RightToLeft: ss.RightToLeft}
+			for _, r := range ss.RequiredFields {
+				sp.Required = append(sp.Required, append([]string(nil), r.GetPath()...))
+			}
+			for _, r := range ss.OptionalFields {
+				sp.Optional = append(sp.Optional, append([]string(nil), r.GetPath()...))
+			}
+			if ss.RemainderField != nil {
+				sp.HasRemainer = true
+				sp.Remainder = append([]string(nil), ss.RemainderField.GetPath()...)
+			}
+			sb.Split = sp
+		}
+		out = append(out, sb)
+	}
+	return out
+}
+
+// ParseFull is Parse plus the filled SourceFile (nil unless the front end returned one).
+func (fe *FrontEnd) ParseFull(filename, data string) (out Parsed, file *sourcedef_j5pb.SourceFile) {
+	defer func() {
+		if r := recover(); r != nil {
+			out.Panic = fmt.Sprint(r)
+			file = nil
+		}
+	}()
+	f, err := fe.p.ParseFile(filename, data)
+	if err != nil {
+		out.Err = err
+		return out, nil
+	}
+	out.HasFile = true
+	flattenLocs(nil, f.SourceLocations, &out.Locs)
+	return out, f
+}
